@@ -773,6 +773,10 @@ func checkSearchConvention(c *Ctx, r *Rec, info *types.Info, lst *types.Named) {
 			if rx, mname, call, ok := methodCall(e); ok && mname == "GetIndex" && len(call.Args) == 1 && (recvRooted(info, rx, recv) || env.isRecvRooted(rx)) {
 				return Val{Lin: linSym("g")}, true
 			}
+			// ContainsValue(x) is GetIndex(x) > 0 (decided for ContainsValue itself by this rule)
+			if rx, mname, call, ok := methodCall(e); ok && mname == "ContainsValue" && len(call.Args) == 1 && (recvRooted(info, rx, recv) || env.isRecvRooted(rx)) {
+				return Val{B: ge(sym("g"), k(1))}, true
+			}
 			if prev != nil {
 				return prev(e)
 			}
